@@ -38,6 +38,7 @@ type Opts struct {
 	StdNamedPkgs     bool // an imported user package may be named like a standard one (time)
 	ForeignUnions    bool // the analysed package may use unions (and types holding unions) of imported packages (analysis-only properties)
 	RecursiveUnions  bool // a struct member of a union may hold a value of that union
+	JSONDash         bool // json:"-" tags even without TagVariety (C15: the field is still filled)
 	SameNamePromoted bool // a flattened embedded struct may have a field with the Go name of an outer field, under another JSON key
 	EmbedNamed       bool // structs may embed an exported named non-struct type (a regular field for encoding/json)
 	ShortModule      bool // the analysed package may have an import path of one or two elements (module at the root)
@@ -435,6 +436,10 @@ func (g *gen) drawTag(name string, label string) string {
 		case 1:
 			if !g.o.gated("json_tag_options") {
 				return fmt.Sprintf(`json:"%s,omitempty"`, snake(name))
+			}
+		case 2:
+			if g.o.JSONDash {
+				return `json:"-"` // hidden from JSON, still a component of the Go value
 			}
 		}
 		return ""
